@@ -50,6 +50,7 @@ type Safety struct {
 	acks     []ackRec // acknowledged writes in return order
 	reads    []readRec
 	okWrites map[int]ClientInfo
+	memberOK []*Event
 
 	// snapshots
 	openRecv   map[string]*recvFile // node -> snapshot file being received
@@ -63,6 +64,9 @@ type Safety struct {
 	ld       int64 // lease duration in ns, from the header event
 	replies  map[string][]replyRec
 	confs    map[string]*ConfInfo
+	confHist map[string][]*ConfInfo
+	grants   map[string]map[string]bool // "candidate/term" -> voters whose granted real vote reached it
+	pendingElect []electRec
 
 	// config
 	Static bool // static membership: voters fixed (enables C04's voter set from the disk event itself)
@@ -75,6 +79,12 @@ type Safety struct {
 type recvFile struct {
 	file        int
 	index, term uint64
+}
+
+type electRec struct {
+	node string
+	term uint64
+	seq  int
 }
 
 type replyRec struct {
@@ -130,7 +140,7 @@ func NewSafety() *Safety {
 		fsmSeq: map[int][]uint64{}, fsmRestored: map[int]bool{},
 		leaderByTerm: map[uint64]string{}, leaderSeq: map[uint64]int{}, rpcLeaderByTerm: map[uint64]string{}, ledFirst: map[string]bool{},
 		votes: map[string]map[uint64]string{}, persisted: map[string][2]any{}, maxTerm: map[string]uint64{}, termAtDel: map[int]uint64{}, lastAtDel: map[int][2]uint64{},
-		sets: map[string][]setRec{}, delSeq: map[int]int{}, replies: map[string][]replyRec{}, confs: map[string]*ConfInfo{},
+		sets: map[string][]setRec{}, delSeq: map[int]int{}, replies: map[string][]replyRec{}, confs: map[string]*ConfInfo{}, confHist: map[string][]*ConfInfo{}, grants: map[string]map[string]bool{},
 		rvReal: map[string]int{}, rvPre: map[string]int{}, incStatus: map[string]StatusInfo{},
 		openRecv: map[string]*recvFile{}, mixedFiles: map[int]string{}, inflightIS: map[string]map[int]*MsgInfo{},
 		invokes: map[int]*Event{}, okWrites: map[int]ClientInfo{}, localSnaps: map[string]bool{}, seen: map[string]bool{},
@@ -231,9 +241,17 @@ func (s *Safety) On(e *Event) []Violation {
 		}
 	case "conf":
 		s.confs[e.Node] = e.Conf
+		s.confHist[e.Node] = append(s.confHist[e.Node], e.Conf)
 	case "reply":
 		if e.Msg.Kind == "AE" || e.Msg.Kind == "IS" {
 			s.replies[e.Node] = append(s.replies[e.Node], replyRec{e.VT, e.Msg.Dst})
+		}
+		if e.Msg.Kind == "RV" && !e.Msg.Prevote && e.Msg.Success {
+			k := fmt.Sprintf("%s/%d", e.Node, e.Msg.Term)
+			if s.grants[k] == nil {
+				s.grants[k] = map[string]bool{}
+			}
+			s.grants[k][e.Msg.Dst] = true
 		}
 	case "invoke":
 		s.invokes[e.Client.Op] = e
@@ -241,7 +259,29 @@ func (s *Safety) On(e *Event) []Violation {
 		s.onReturn(e)
 	case "disk":
 		d := e.Disk
-		if len(d.Holders)*2 <= len(d.Voters) {
+		if len(d.Configs) > 0 {
+			// dynamic membership: the holders must be a strict majority of the voters of at least one
+			// configuration some running node is in (non-voters and removed nodes never count)
+			ok := false
+			hold := map[string]bool{}
+			for _, h := range d.Holders {
+				hold[h] = true
+			}
+			for _, vs := range d.Configs {
+				n := 0
+				for _, v := range vs {
+					if hold[v] {
+						n++
+					}
+				}
+				if n*2 > len(vs) {
+					ok = true
+				}
+			}
+			if !ok {
+				s.v("C09", "C09/commit-without-voter-majority", fmt.Sprintf("index %d term %d (%s): on disk at %v, which is not a majority of the voters of any configuration in use %v", d.Index, d.Term, d.When, d.Holders, d.Configs), e.Seq)
+			}
+		} else if len(d.Holders)*2 <= len(d.Voters) {
 			s.v("C04", "C04/ack-without-majority-on-disk", fmt.Sprintf("index %d term %d (%s): on disk at %v of voters %v", d.Index, d.Term, d.When, d.Holders, d.Voters), e.Seq)
 		}
 	case "snapfile":
@@ -440,6 +480,7 @@ func (s *Safety) leaderStarts(node string, term uint64, seq int) {
 		return
 	}
 	s.ledFirst[key] = true
+	s.pendingElect = append(s.pendingElect, electRec{node, term, seq})
 	l := s.sh(node)
 	idx := make([]uint64, 0, len(s.committed))
 	for i := range s.committed {
@@ -670,6 +711,8 @@ func (s *Safety) onReturn(e *Event) {
 		return
 	}
 	switch c.Type {
+	case "add", "remove":
+		s.memberOK = append(s.memberOK, e)
 	case "write":
 		if c.RH != c.H {
 			s.v("C03", "C03/future-wrong-bytes", fmt.Sprintf("op %d: future returned bytes h%x, submitted h%x", c.Op, c.RH, c.H), e.Seq)
@@ -746,6 +789,60 @@ func (s *Safety) logMatching(seq int) {
 // authoritative order).
 func (s *Safety) Finish() []Violation {
 	s.logMatching(0)
+	// every leader was elected by a strict majority of the voters of a configuration it was in
+	// (itself plus the voters whose granted vote reached it); non-voters never count
+	for _, el := range s.pendingElect {
+		g := s.grants[fmt.Sprintf("%s/%d", el.node, el.term)]
+		ok := len(s.confHist[el.node]) == 0
+		for _, cf := range s.confHist[el.node] {
+			voters, n := 0, 0
+			for m, v := range cf.Members {
+				if v {
+					voters++
+					if m == el.node || g[m] {
+						n++
+					}
+				}
+			}
+			if voters > 0 && n*2 > voters {
+				ok = true
+			}
+		}
+		if !ok {
+			var gs []string
+			for m := range g {
+				gs = append(gs, m)
+			}
+			sort.Strings(gs)
+			s.v("C09", "C09/leader-without-voter-majority", fmt.Sprintf("%s led term %d with granted votes from %v, which together with itself is not a majority of the voters of any configuration it reported", el.node, el.term, gs), el.seq)
+		}
+	}
+	// successful membership futures report a committed configuration that contains the change
+	for _, inv := range s.invokes {
+		_ = inv
+	}
+	for _, r := range s.memberOK {
+		c := r.Client
+		cf := c.Conf
+		if cf == nil {
+			continue
+		}
+		voter, member := cf.Members[c.Arg]
+		switch c.Type {
+		case "add":
+			if !member || voter != c.Voter {
+				s.v("C09", "C09/future-configuration-lacks-change", fmt.Sprintf("AddServer(%s, voter=%v) succeeded with configuration %v", c.Arg, c.Voter, cf.Members), r.Seq)
+			}
+		case "remove":
+			if member {
+				s.v("C09", "C09/future-configuration-lacks-change", fmt.Sprintf("RemoveServer(%s) succeeded with configuration %v", c.Arg, cf.Members), r.Seq)
+			}
+		}
+		ce, ok := s.committed[cf.Index]
+		if !ok || ce.Y != 2 {
+			s.v("C09", "C09/future-reports-uncommitted-configuration", fmt.Sprintf("%s(%s) succeeded with the configuration of index %d, which was never observed committed", c.Type, c.Arg, cf.Index), r.Seq)
+		}
+	}
 	order := make([]uint64, 0, len(s.applied))
 	for i := range s.applied {
 		order = append(order, i)
